@@ -337,12 +337,30 @@ static res_t do_op(rset_t *r, const char *op, char *args)
 			b = calloc(1, size + 1);
 			ret = sqfs_data_reader_create_stream(r->data, inode, "f", &in);
 			if (ret == 0) {
+				/* optional second argument: another file that is read through the same data reader while the stream is
+				   open (after its first chunk) - the stream must not notice */
+				char *e2 = NULL;
+				sqfs_u64 oref = strtoull(e, &e2, 0);
+				sqfs_inode_generic_t *oi = NULL;
+				int interleaved = 0;
+				if (e2 != e && sqfs_dir_reader_get_inode(r->dr, oref, &oi) != 0)
+					oi = NULL;
 				while (pos < size) {
-					sqfs_s32 n = sqfs_istream_read(in, a + pos, size - pos);
+					sqfs_s32 n = sqfs_istream_read(in, a + pos, (size - pos) > 1000 ? 1000 : (size - pos));
 					if (n <= 0)
 						break;
 					pos += n;
+					if (oi != NULL && !interleaved && (oi->base.type == SQFS_INODE_FILE || oi->base.type == SQFS_INODE_EXT_FILE)) {
+						unsigned char tmp[64];
+						size_t fsz = 0;
+						sqfs_u8 *fb = NULL;
+						interleaved = 1;
+						(void)sqfs_data_reader_read(r->data, oi, 0, tmp, sizeof(tmp));
+						if (sqfs_data_reader_get_fragment(r->data, oi, &fsz, &fb) == 0)
+							free(fb);
+					}
 				}
+				sqfs_free(oi);
 				sqfs_drop(in);
 				if (pos == size) {
 					sqfs_u64 p2 = 0;
